@@ -22,7 +22,7 @@ def build(tier, seed):
     sig_bpsk = [0.001, 0.01, 0.1, 0.25, 0.5, 0.7071067811865476, 1.0, 1.4142135623730951, 2.0, 3.0, 10.0, 1000.0]
     if tier == "thorough":
         sig_bpsk += [0.003, 0.03, 0.3, 0.9, 1.1, 5.0, 31.6, 100.0, 316.0, 1e-6, 1e6]
-    sig_psk = [0.1, 0.2, 0.3] if tier == "quick" else [0.05, 0.1, 0.15, 0.2, 0.25, 0.3]
+    sig_psk = [0.02, 0.1, 0.3] if tier == "quick" else [0.01, 0.02, 0.03, 0.05, 0.1, 0.15, 0.2, 0.25, 0.3]
     eps = 0.02
     items = []
     for i, s in enumerate(sig_bpsk):
